@@ -23,6 +23,8 @@ DECIDED_MORE = ('Also: count-down form of the limit with an `is not None` guard;
 DECIDED = DECIDED + ' ' + DECIDED_MORE
 DECIDED_R6 = ('Round 6: strict limit comparison; a supplied setting is used whenever the key is present; the one-shot spill flag is armed before the loop; a declared length above the threshold is refused before reading.')
 DECIDED = DECIDED + ' ' + DECIDED_R6
+DECIDED_R7 = ('Round 7: the spooled body stays open while the response is produced; an upload reads its own part only (read(-1) included).')
+DECIDED = DECIDED + ' ' + DECIDED_R7
 NOT_DECIDED = ('framing overhead of pathological chunking (1-byte chunks); memory used by the interpreter for the objects '
                'themselves.')
 ASSUMPTIONS = ['wsgi.input.read(n) returns at most n bytes', 'TemporaryFile keeps its content on disk']
